@@ -36,7 +36,8 @@ CFG = dict(
              "SplitOnUniqueMaterials with material ranges SHORTER than the triangle list indexes past the last range (runtime index-out-of-range panic in the skip loop); the harness "
              "recovers that panic and reports it as a rejection (go/harness/util_mesh.go, op split), the model returns none for exactly this case. Material ranges are outside WF as "
              "the property defines it, and a panic is a reported failure, not a returned bad mesh; a fixed corpus case (c02.go corpusC02) exercises it on every run",
-             "LaplacianSmooth on Line/LineLoop topologies not modelled (VertexNeighborTable indexes m.indices[0] of an empty line loop: runtime panic, observation)",
+             "OBSERVATION kept in the streams: LaplacianSmooth on an EMPTY line loop panics at run time (VertexNeighborTable indexes m.indices[0]); it is compared as the answer 'panic' "
+             "(driver knownPanic); every other line / line-strip / line-loop mesh is modelled (edges: consecutive pairs, odd pairs, closing edge) and corresponded",
              "negative indices are unrepresentable in the model (oracle answers false)",
              "the correspondence is differential testing bounded by the generators (distribution in this file)"],
     assumptions=["WF is the property's own definition: one common attribute length, every index < that length, index count a "
